@@ -58,6 +58,16 @@ Theorem PIPE_wrap_collision :
 Proof. exact build_wrap_collision. Qed.
 Print Assumptions PIPE_wrap_collision.
 
+(* unconditionally, for every kustomization directory: the wrapper is transparent, or it fails - and then exactly
+   because two of the resources the inner kustomization accumulated share an id *)
+Theorem PIPE_wrap_total :
+  forall nonstr name o n d ents,
+    build nonstr o (wrap name (PDir n d ents)) = build nonstr o (PDir n d ents) \/
+    (build nonstr o (wrap name (PDir n d ents)) = Err /\
+     exists m, accumulate nonstr (PDir n d ents) = Ok m /\ ~ distinct_ids m).
+Proof. exact build_wrap_total. Qed.
+Print Assumptions PIPE_wrap_total.
+
 (* ---------- C19: commonLabels vs labels[{pairs, includeSelectors: true}] ----------
    Rewriting commonLabels of ANY subset of layers (selected by directory name) into a trailing `labels` entry
    with includeSelectors - what FixKustomizationPreMarshalling does - never changes the build. *)
